@@ -395,6 +395,11 @@ class CallMixin:
             recv = recv.val
         if isinstance(recv, (list, VList)):
             return self.list_method(recv, name, args, kwargs, node)
+        if type(recv).__name__ == "VRefMap":
+            if name == "add":
+                recv.arr = z3.Store(recv.arr, self.z(args[0]), z3.BoolVal(True))
+                return None
+            raise GenError("refset.%s" % name)
         if isinstance(recv, VSet):
             if name == "add":
                 if not is_const(args[0]):
